@@ -211,6 +211,28 @@ CLAIMED = {
              "on a zero-extent arc).",
         technique="Lean 4 proof (induction over the slice loop and over the path; ring over a field; ordered-field Lipschitz bound) + differential correspondence + geometric oracle on the implementation",
         ref="DESIGN.md §4 C19"),
+    "C15": dict(
+        text="Lean 4 theorems. The chord recursion PathSegment.segment_length (Model/ArcLen.segLen; every error, min_depth and "
+             "recursion budget; induction over the budget) depends on the curve only through distances between sampled points, so "
+             "it - and its subdivision tree - is the same for a curve and its image under any rotation, translation or reflection; "
+             "it is unchanged by reversal t -> 1-t (over a field, symmetric distance); with all distances and the error scaled by "
+             "c > 0 it scales by c; it never returns less than the chord (triangle inequality) and is 0 on a constant curve. Moves "
+             "have length 0, lines/closes the distance of their end points; a shape's length is the sum of its segments' lengths "
+             "(CPython 3.12's compensated sum() = the mathematical sum over a field), zero entries may be dropped, the fractions "
+             "sum to 1. point(t): for non-negative lengths with non-zero total and 0 < t < 1 the for/else loop selects the segment "
+             "whose cumulative-fraction interval (c_i, c_i + f_i] contains t, at local parameter (t - c_i)/((c_i+f_i) - c_i) in "
+             "(0, 1], and never falls through; t <= 0 and t >= 1 go to the first/last segment (list induction). The model (same "
+             "recursion in floats, quadratic closed form with its exception-driven fallbacks, circle shortcut, selection loop) is "
+             "compared with the code for the segment, its isometric image, its reverse and its scaled copy, and for point(t) at "
+             "interior, boundary and nextafter(1,0) parameters; true lengths (60-digit closed form, adaptive Gauss-Legendre) and the "
+             "invariance relations are evaluated on the implementation.",
+        note="Partial: ACCURACY of the chord recursion against the true arc length is not proved and is false as stated (error is a "
+             "per-interval threshold; hidden symmetric excursions): known finding C15-chord-error-per-interval, attributed only when "
+             "the reference recursion reproduces the returned value. The quadratic closed form's value is validated numerically. "
+             "Over floats the cumulative sum may fall short of t (fall-through branch): correspondence only. One fix: commit "
+             "(near-midpoint quadratic: cancelled closed form, wrong by up to 2x).",
+        technique="Lean 4 proof (induction over the recursion budget and over segment lists; ordered-field algebra) + differential correspondence + quadrature oracle and invariance relations on the implementation",
+        ref="DESIGN.md §4 C15"),
 }
 ALL = ["C%02d" % i for i in range(1, 21)]
 
